@@ -260,8 +260,13 @@ impl Gen<'_> {
         }
         self.docn += 1;
         let n = self.docn;
-        let period = self.r.chance(50);
-        let dot = if period { "." } else { "" };
+        // a final period is dropped from the summary, an ellipsis is text and stays
+        let dot = match self.r.below(12) {
+            0 => "...",
+            1..=6 => ".",
+            _ => "",
+        };
+        let strip_period = |t: &str| if t.ends_with("..") { t.to_string() } else { t.strip_suffix('.').unwrap_or(t).to_string() };
         match self.r.below(6) {
             4 => {
                 // paragraphs separated by more than one blank line, and a third paragraph
@@ -272,7 +277,7 @@ impl Gen<'_> {
                 Some(DocM {
                     style: 0,
                     lines: vec![a.clone(), String::new(), String::new(), b.clone(), String::new(), String::new(), String::new(), c1.clone(), c2.clone()],
-                    summary: a.trim_end_matches('.').to_string(),
+                    summary: strip_period(&a),
                     paragraphs: vec![a, b, format!("{} {}", c1, c2)],
                 })
             }
@@ -281,7 +286,7 @@ impl Gen<'_> {
                 Some(DocM {
                     style: 0,
                     lines: vec![format!("{}{}", l, dot)],
-                    summary: l.clone(),
+                    summary: strip_period(&format!("{}{}", l, dot)),
                     paragraphs: vec![format!("{}{}", l, dot)],
                 })
             }
@@ -292,7 +297,7 @@ impl Gen<'_> {
                 Some(DocM {
                     style: 0,
                     lines: vec![a, b],
-                    summary: merged.trim_end_matches('.').to_string(),
+                    summary: strip_period(&merged),
                     paragraphs: vec![merged],
                 })
             }
@@ -303,7 +308,7 @@ impl Gen<'_> {
                 Some(DocM {
                     style: 0,
                     lines: vec![a.clone(), String::new(), b1.clone(), b2.clone()],
-                    summary: a.trim_end_matches('.').to_string(),
+                    summary: strip_period(&a),
                     paragraphs: vec![a, format!("{} {}", b1, b2)],
                 })
             }
